@@ -28,7 +28,8 @@ def handle (j : PJson) : PJson :=
   | "new" =>
     match ints j "args" with
     | some [y, mo, d, h, mi, s, ms] =>
-      mk [("dt", optDt (datetimeNew y mo d h mi s ms)), ("spec", optDt (datetimeNewSpec y mo d h mi s ms))]
+      let spec := if yearGte ≤ y ∧ dayGte ≤ d ∧ d ≤ dayLte then datetimeNewSpec y mo d h mi s ms else none
+      mk [("dt", optDt (datetimeNew y mo d h mi s ms)), ("spec", optDt spec)]
     | _ => bad "new: args"
   | "core" =>
     match ints j "args" with
